@@ -325,6 +325,38 @@ pub fn main(args: Args) -> i32 {
     if let Some(p) = &args.replay {
         let doc = load_replay(p);
         let j: &J = &doc["replay"];
+        if let Some(lit_src) = j["site_literal"].as_str() {
+            let render = |src: &str, ctx: Value| -> Out {
+                match catch(|| match env0.template_from_str(src) {
+                    Err(_) => Out::CompileErr,
+                    Ok(t) => match t.render(ctx) {
+                        Ok(s) => Out::Ok(s),
+                        Err(_) => Out::Err,
+                    },
+                }) {
+                    Ok(o) => o,
+                    Err(_) => Out::Panic,
+                }
+            };
+            let hoist = j["hoist"].as_u64().unwrap();
+            let mut ctx = vec![];
+            if hoist & 1 != 0 {
+                ctx.push(("v0".to_string(), lit_values[j["v0"].as_u64().unwrap() as usize].clone()));
+            }
+            if hoist & 2 != 0 {
+                ctx.push(("v1".to_string(), lit_values[j["v1"].as_u64().unwrap() as usize].clone()));
+            }
+            let a = render(lit_src, Value::from(()));
+            let b = render(j["site_hoisted"].as_str().unwrap(), Value::from_pairs(ctx));
+            println!("literal form -> {:?}\nhoisted form -> {:?}", a, b);
+            return if a == b {
+                println!("replay: case passes");
+                0
+            } else {
+                println!("VIOLATION property=C04 replay={}  # {:?} vs {:?}", p, a, b);
+                1
+            };
+        }
         let src = j["expr"].as_str().unwrap();
         let hoist = j["hoist"].as_u64().unwrap() as u32;
         let lits: Vec<usize> = j["lits"].as_array().unwrap().iter().map(|x| x.as_u64().unwrap() as usize).collect();
@@ -378,6 +410,99 @@ pub fn main(args: Args) -> i32 {
             check_expr(&env, &lit_values, &exprs[i as usize], &acc, l);
         }
     });
+    // sites: the places of the language that take expressions or arguments - positional, keyword and
+    // mixed calls of macros, call blocks, filters, tests, functions and filter blocks, statement heads,
+    // subscripts, defaults - with literals in one or two argument slots; every non-empty subset of the
+    // slots is hoisted and the whole render must agree
+    {
+        const POOL: &[usize] = &[0, 1, 2, 3, 4, 5, 6, 7, 8, 10];
+        const PRE: &str = "{% macro m(a=7, b=8) %}[{{ a }}|{{ b }}]{% endmacro %}{% macro mc(a=7, b=8) %}<{{ a }}|{{ b }}|{{ caller() }}>{% endmacro %}{% macro mx(a=7) %}<{{ a }}|{{ caller(a) }}>{% endmacro %}";
+        const SITES: &[&str] = &[
+            "{{ m(L0, L1) }}", "{{ m(a=L0, b=L1) }}", "{{ m(L0, b=L1) }}", "{{ m(b=L0) }}", "{{ m(*[L0, L1]) }}", "{{ m(**{'a': L0, 'b': L1}) }}", "{{ m(L0, **{'b': L1}) }}",
+            "{% call m(L0, L1) %}x{% endcall %}", "{% call m(a=L0) %}x{% endcall %}",
+            "{% call mc(L0, L1) %}x{% endcall %}", "{% call mc(a=L0, b=L1) %}x{% endcall %}", "{% call mc(L0, b=L1) %}x{% endcall %}", "{% call mc(b=L0) %}x{% endcall %}", "{% call mc() %}{{ L0 }}{% endcall %}",
+            "{% call(q) mx(a=L0) %}{{ q }}{{ L1 }}{% endcall %}", "{% call(q) mx(L0) %}{{ q }}{% endcall %}", "{% call(q=L1) mx(a=L0) %}{{ q }}{% endcall %}",
+            "{{ L0|default(L1) }}", "{{ L0|default(L1, true) }}", "{{ L0|default(L1, boolean=true) }}", "{{ 1.2345|round(L0) }}", "{{ 1.2345|round(precision=L0, method='floor') }}", "{{ 'abcdef'|truncate(length=L0, killwords=L1, leeway=0) }}",
+            "{{ [3, 1, 2]|sort(reverse=L0) }}", "{{ [3, 1, 2]|batch(L0, fill_with=L1)|list }}", "{{ [L0, L1]|join(',') }}", "{{ [1, 2]|join(L0) }}", "{{ 'a-b'|replace('-', L0|string) }}", "{{ 'a-b'|split('-', L0)|list }}",
+            "{{ range(L0, L1)|list }}", "{{ range(L0)|list }}", "{{ dict(a=L0, b=L1) }}", "{{ dict(a=L0) }}", "{{ namespace(a=L0, b=L1).b }}", "{{ '%s-%s'|format(L0, L1) }}",
+            "{{ L0 is divisibleby(L1) }}", "{{ L0 is eq(L1) }}", "{{ L0 is in([L1]) }}", "{{ L0 is ne(L1) }}", "{{ [L0, L1]|select('eq', L1)|list }}", "{{ [L0, L1]|map('default', L1)|list }}",
+            "{% filter default(L0) %}{% endfilter %}", "{% filter indent(width=L0, first=L1) %}a\nb{% endfilter %}", "{% filter truncate(L0, L1) %}abc def ghi{% endfilter %}", "{% filter center(width=L0) %}x{% endfilter %}",
+            "{% for x in [L0, L1] %}{{ x }};{% endfor %}", "{% for x in [1, 2] if L0 %}{{ x }}{% else %}none{% endfor %}", "{% for x in L0 %}{{ x }}{% else %}{{ L1 }}{% endfor %}", "{% for a, b in [[L0, L1]] %}{{ a }}{{ b }}{% endfor %}",
+            "{% if L0 %}a{% elif L1 %}b{% else %}c{% endif %}", "{% set x = L0 %}{{ x }}", "{% set x, y = L0, L1 %}{{ x }}{{ y }}", "{% set x = [L0, L1] %}{{ x }}", "{% with a = L0, b = L1 %}{{ a }}{{ b }}{% endwith %}", "{% set ns = namespace() %}{% set ns.a = L0 %}{{ ns.a }}",
+            "{{ 'abc'[L0:L1] }}", "{{ [1, 2, 3][L0] }}", "{{ [1, 2, 3][L0:L1:L0] }}", "{{ {'a': 1, 1: 2}[L0] }}", "{{ L0 if L1 else 2 }}", "{{ L0 if L1 }}|", "{{ (L0, L1)[L0] }}", "{{ L0.real }}", "{{ L0|attr('x') }}",
+            "{% autoescape L0 %}{{ '<' }}{% endautoescape %}", "{% macro d(a=L0, b=L1) %}{{ a }}{{ b }}{% endmacro %}{{ d() }}", "{% macro d(a=L0) %}{{ a }}{% endmacro %}{{ d(L1) }}", "{{ L0 ~ L1 }}", "{{ cycler(L0, L1).next() }}", "{{ joiner(L0)() }}{{ lipsum(L0)|length > 0 }}",
+            "{% for x in [1, 2] %}{{ loop.cycle(L0, L1) }}{% endfor %}", "{% for x in [[1]] recursive %}{{ loop(L0) }}{% endfor %}", "{% include [L0|string, 'none'] ignore missing %}|", "{{ L0|tojson(indent=L1) }}", "{{ L0|string|upper|length + L1 }}",
+        ];
+        let mut cases: Vec<(usize, usize, usize)> = vec![];
+        for (si, site) in SITES.iter().enumerate() {
+            let two = site.contains("L1");
+            for a in 0..POOL.len() {
+                for b in 0..if two { POOL.len() } else { 1 } {
+                    cases.push((si, POOL[a], POOL[b]));
+                }
+            }
+        }
+        acc.count("site_programs", cases.len() as u64);
+        par_chunks(cases.len() as u64, 64, &acc, |r, l| {
+            let env = Environment::new();
+            let render = |src: &str, ctx: &[(String, Value)]| -> Out {
+                match catch(|| match env.template_from_str(src) {
+                    Err(_) => Out::CompileErr,
+                    Ok(t) => match t.render(Value::from_pairs(ctx.iter().cloned())) {
+                        Ok(s) => Out::Ok(s),
+                        Err(_) => Out::Err,
+                    },
+                }) {
+                    Ok(o) => o,
+                    Err(_) => Out::Panic,
+                }
+            };
+            for i in r {
+                let (si, la, lb) = cases[i as usize];
+                let site = SITES[si];
+                let two = site.contains("L1");
+                let lit_src = format!("{}{}", PRE, site.replace("L0", LITS[la]).replace("L1", LITS[lb]));
+                let folded = render(&lit_src, &[]);
+                l.evals += 1;
+                l.outcome(match &folded {
+                    Out::Ok(_) => "site ok",
+                    Out::Err => "site runtime error",
+                    Out::CompileErr => "site compile error",
+                    Out::Panic => "site panic",
+                });
+                if matches!(folded, Out::Ok(_)) {
+                    l.nontrivial.insert(fnv(lit_src.as_bytes()));
+                }
+                for hoist in 1..if two { 4u32 } else { 2u32 } {
+                    let src = format!("{}{}", PRE, site.replace("L0", if hoist & 1 != 0 { "v0" } else { LITS[la] }).replace("L1", if hoist & 2 != 0 { "v1" } else { LITS[lb] }));
+                    let mut ctx = vec![];
+                    if hoist & 1 != 0 {
+                        ctx.push(("v0".to_string(), lit_values[la].clone()));
+                    }
+                    if hoist & 2 != 0 {
+                        ctx.push(("v1".to_string(), lit_values[lb].clone()));
+                    }
+                    let got = render(&src, &ctx);
+                    l.evals += 1;
+                    if got != folded {
+                        let clause = match (&folded, &got) {
+                            (Out::Ok(_), Out::Ok(_)) => "output_differs",
+                            (Out::CompileErr, _) => "load_time_failure",
+                            (Out::Ok(_), _) => "literal_ok_variable_fails",
+                            (_, Out::Ok(_)) => "literal_fails_variable_ok",
+                            _ => "failure_mode_differs",
+                        };
+                        acc.fail(Failure {
+                            key: format!("{} site={}", clause, site),
+                            case: format!("{} hoist={:b}", lit_src, hoist),
+                            detail: format!("{} -> {:?} but {} with {:?} -> {:?}", lit_src, folded, src, ctx.iter().map(|(k, v)| format!("{}={}", k, show(v))).collect::<Vec<_>>(), got),
+                            replay: json!({"site_literal": lit_src, "site_hoisted": src, "v0": la, "v1": lb, "hoist": hoist}),
+                        });
+                    }
+                }
+            }
+        });
+    }
     acc.sample(json!({"literal": "(0 and 1)", "hoisted": ["(v0 and 1)", "(0 and v1)", "(v0 and v1)"], "bindings": "v_k = the Value the literal itself evaluates to"}));
     acc.sample(json!({"literal": exprs[exprs.len() / 2].src(0, &mut 0), "hoisted_all": exprs[exprs.len() / 2].src(u32::MAX, &mut 0)}));
     finish(
@@ -386,7 +511,7 @@ pub fn main(args: Args) -> i32 {
             level: "exploration",
             tier: args.tier,
             seed: args.seed,
-            rule: format!("all depth-1 expressions over a 16-literal pool x 18 binary operators + unary -/not + list/tuple/map displays (two-entry maps over all pairs of 10 hashable literals, equal keys included) + list/tuple/map displays and keyword arguments whose items are unary or binary operations over literals + literal keyword arguments, and all depth-2 expressions ((a o b) o c, a o (b o c), 7 comparison chains, nested displays) over the first {} literals x {} operators; for each expression every non-empty subset of its literal occurrences is hoisted into context variables bound to the value the lexer produces for that literal, and Ok/Err status plus kind:text of the result must equal the all-literal (constant-folded) form; failing constant expressions must load and stay silent in dead code. distinct non-trivial = distinct expressions that evaluate successfully", core_pool.len(), args.tier.pick(OPS_CORE, OPS_ALL).len()),
+            rule: format!("all depth-1 expressions over a 16-literal pool x 18 binary operators + unary -/not + list/tuple/map displays (two-entry maps over all pairs of 10 hashable literals, equal keys included) + list/tuple/map displays and keyword arguments whose items are unary or binary operations over literals + literal keyword arguments, 76 sites of the language that take expressions or arguments (positional, keyword, mixed and splatted calls of macros, call blocks with and without arguments of their own, filters, tests, functions, filter blocks, statement heads, subscripts, macro defaults) with one or two of 10 literals in the argument slots, and all depth-2 expressions ((a o b) o c, a o (b o c), 7 comparison chains, nested displays) over the first {} literals x {} operators; for each expression every non-empty subset of its literal occurrences is hoisted into context variables bound to the value the lexer produces for that literal, and Ok/Err status plus kind:text of the result must equal the all-literal (constant-folded) form; failing constant expressions must load and stay silent in dead code. distinct non-trivial = distinct expressions that evaluate successfully", core_pool.len(), args.tier.pick(OPS_CORE, OPS_ALL).len()),
             exhaustive: true,
             bound: json!({"literals": LITS, "ops": OPS_ALL, "depth2_pool": core_pool.len()}),
             assumptions: vec!["sequence repetition by counts >= 2^31 is excluded (lazy, unprintable); its crash behaviour belongs to C01".into()],
